@@ -3,6 +3,7 @@ extension logic needs sector tables and is outside reach, see DESIGN.md)."""
 from .verifreg_common import *
 
 PROPERTY = 'C10'
+CRATES = ['fil_actors_runtime', 'fil_actor_verifreg', 'fil_actor_miner']
 
 
 def build(tier):
@@ -16,4 +17,6 @@ def build(tier):
                             descr='claims are removed only after term_start + term_max has passed', bounds='%d explicit ids' % n, max_paths=60000))
     O.append(Obligation('verifreg.claim_allocations[1 sector x 1]', run_claim([1]), props_claim,
                         descr='claim created with term_start = now, for the calling provider, copying the allocation terms', bounds='1 sector, 1 claim', max_paths=60000))
+    from . import miner_ext
+    O += miner_ext.build_for(tier)
     return O
